@@ -117,7 +117,16 @@ def render_psl_text(public, private, puny_comments=()):
 
 
 def render_tld_text(tlds):
-    return "# Version 2026100300, Last Updated Sat Oct  3 07:07:01 2026 UTC\n" + "".join(t.upper() + "\n" for t in tlds)
+    """tlds-alpha-by-domain.txt as IANA serves it: upper-case A-labels only."""
+    lines = []
+    for t in tlds:
+        if any(ord(ch) > 127 for ch in t):
+            try:
+                t = t.encode("idna").decode("ascii")
+            except UnicodeError:
+                continue
+        lines.append(t.upper() + "\n")
+    return "# Version 2026100300, Last Updated Sat Oct  3 07:07:01 2026 UTC\n" + "".join(lines)
 
 
 def render_data_module(public, private, tlds):
